@@ -1105,9 +1105,19 @@ def _opener_args(e):
     pos = [a for a in args if a[0] != "kw"]
     kws = {a[1]: a[2] for a in args if a[0] == "kw"}
     star = kws.get("**")
-    if star is not None and star[0] != "dict":
-        raise AnalysisError("%s: the open function is called with **%s, a mapping the rules cannot read" % (e.where(), show(star)))
-    has_enc = "encoding" in kws or (star is not None and ("const", "encoding") in star[1::2])
+    star_keys = set()
+    if star is not None:
+        if star[0] == "dict":
+            star_keys = {k[1] for k in star[1::2] if k[0] == "const"}
+            if len(star_keys) != len(star[1::2]):
+                raise AnalysisError("%s: the open function is called with **%s, whose keys are not all constants" % (e.where(), show(star)))
+        elif star[0] == "call" and star[1] == ("builtin", "dict") and all(a[0] == "kw" and a[1] != "**" for a in star[2]):
+            star_keys = {a[1] for a in star[2]}
+        else:
+            raise AnalysisError("%s: the open function is called with **%s, a mapping the rules cannot read" % (e.where(), show(star)))
+    has_enc = "encoding" in kws or "encoding" in star_keys
+    if "mode" in star_keys:
+        kws = dict(kws, mode=None)
     text = ", ".join(show(a[2]) if a[0] == "kw" and a[1] == "**" else ("%s=%s" % (a[1], show(a[2])) if a[0] == "kw" else show(a)) for a in args)
     return bool(pos) and (len(pos) >= 2 or "mode" in kws) and has_enc, text
 
